@@ -1382,7 +1382,7 @@ def fmt(e, depth=0):
     if k == 'cast':
         return 'cast(%s)' % f(e[1])
     if k == 'phi':
-        return 'phi(%s)' % ' | '.join(f(a) for a in e[2])
+        return 'phi(%s)' % ' | '.join(f(a) for a in (e[2] if len(e) > 2 else e[1]))
     if k == 'local':
         return '_%s%s' % (e[1], ('/' + e[2]) if len(e) > 2 and e[2] else '')
     if k == 'closure':
